@@ -185,9 +185,11 @@ Definition rollback_of (persisted change : cmap) : cmap :=
                then fold_left (fun acc '(k, cv) => if negb (pv_deleted cv) && is_path_below k p then insert k cv acc else acc) persisted rb2
                else rb2 in
     (cand', rb3)) change (persisted, [])).
-(* reconcileValidate, Rollback case: plain overwrite *)
+(* reconcileValidate, Rollback case: the rollback values are applied like any other value (repo 3342112): a restored
+   live value removes the deleted ancestors that cover it.  (Before that repair it was a plain overwrite, and the
+   document shown to the plugin lacked the subtree a rollback of a container delete brings back - finding F-24.) *)
 Definition candidate_rb (persisted rb : cmap) : cmap :=
-  fold_left (fun cand '(p, v) => insert p v cand) rb persisted.
+  fold_left (fun cand '(p, v) => fst (apply_change_to_config cand p v)) rb persisted.
 
 (* gNMI request = deletes, updates (path, value) in request order *)
 Record req := mkReq { r_del : list str; r_upd : list (str * str) }.
